@@ -462,4 +462,34 @@ example :
     decide +kernel
   · decide +kernel
 
+/-! ### the two places where the implication is *not* provable (genuine defects found by the harness) -/
+
+/-- Without the side condition `W·(εα) ≤ εα` the code-units conclusion does not give (b): obtuse cone
+`W = [[2,1],[1,2]]`, `ε·α = (1,1)` read as an objective-space shift gives thresholds `W·s = (3,3)`;
+with `μ₀ = (0,0)`, `μ₁ = (1/2,1/2)` and `P = {0,1}` the conclusion `accT` holds while design 1
+exceeds design 0 by `3/2 > ε·α_n = 1` on every facet (defect D6, key `rect-slack-objective-space-units`). -/
+example :
+    let W : Mat := [[2, 1], [1, 2]]
+    let mu : Nat → Vec := fun i => ([[0, 0], [1/2, 1/2]] : List Vec).getD i []
+    slackSideCondition W [1, 1] [1, 1] = false ∧
+    accT W (matVec W [1, 1]) 2 mu [0, 1] = true ∧ accB W [1, 1] 1 2 mu [0, 1] = false := by
+  decide +kernel
+
+/-- For Auer the premise "the truth is inside the displayed box" (per-objective widths) is *not*
+enough once width rows are not uniform across objectives: two designs, `ε = 1`, `μ₁ − μ₀ = (5/4, 5/4)`;
+in both rounds the truth is inside both boxes, yet two rounds of `Steps.auerRound` put both designs
+into `P` (key `auer-scalar-M-vs-smallest-width`; the theorem `auer_final_accurate` needs
+`‖c − μ‖_∞ ≤ min_d β_d`, which fails here in round 2). -/
+example :
+    let mu : Nat → Vec := fun i => ([[0, 0], [5/4, 5/4]] : List Vec).getD i []
+    let centre : Nat → Nat → Vec := fun r i =>
+      ([[[-3, -5], [17/4, 25/4]], [[-7/2, 35/2], [19/4, -65/4]]] : List (List Vec)).getD r [] |>.getD i []
+    let width : Nat → Nat → Vec := fun r _ => ([[6, 6], [4, 50]] : List Vec).getD r []
+    (∀ r, r < 2 → ∀ i, i < 2 →
+      inBox (vsub (centre r i) (width r i)) (vadd (centre r i) (width r i)) (mu i) = true) ∧
+    auerRun 2 1 centre width 2 = ([], [0, 1]) ∧
+    accB (identMat 2) (ones 2) 1 2 mu (auerRun 2 1 centre width 2).2 = false ∧
+    errWithin (centre 1 0) (width 1 0) (mu 0) = false := by
+  decide +kernel
+
 end VOPy.C01
